@@ -181,8 +181,27 @@ let run_cli (args : (string * string) list) : string =
   end;
   Buffer.contents res
 
-(* "sccbig": component arrays far above the minimum task length of the parallel loops, whose
-   verdict was computed by the harness itself with linear scans - an unproved probe that is
-   only passed through *)
+(* "sccbig": component arrays far above the minimum task length of the parallel loops, far
+   too large for the nth-based model.  The verdict "big" is computed by the extracted n log n
+   checker big_check_sort_by_size, proved to decide the array-level conclusions of
+   S_sort_by_size (C15_big_sort_by_size_spec): same partition, indices below k, returned
+   sizes = sizes of the new numbering, non-increasing; what compute_sizes() returns
+   afterwards must be those sizes.  "bigagree" compares it with the verdict the harness
+   computed by linear scans (hverdict): a cheap cross check of both. *)
 let run_big (args : (string * string) list) : string =
-  " big=" ^ (Conv.get args "verdict")
+  let status = get args "status" in
+  let hv = get args "hverdict" in
+  let n = get_int args "n" in
+  let short s = if String.length s > 60 then String.sub s 0 60 ^ "..." else s in
+  let mine =
+    if status <> "ok" then fail (short status) else begin
+      let nl key = List.map n_of_int (ints_of_string (get args key)) in
+      let old_ = nl "old" and new_ = nl "new" and sizes = nl "sizes" in
+      let k = n_of_int (get_int args "k") in
+      if List.length old_ <> n then fail "case-length"
+      else if not (Model.BigCheckM.big_check_sort_by_size k old_ new_ sizes) then fail "big_check_sort_by_size"
+      else if get args "csizes" <> get args "sizes" then fail "compute_sizes"
+      else "ok"
+    end in
+  " big=" ^ mine ^ " bigagree=" ^
+  (if (mine = "ok") = (hv = "ok") then "ok" else fail ("driver:" ^ mine ^ ";harness:" ^ short hv))
